@@ -202,6 +202,14 @@ def run(ctx: Ctx) -> None:
     from . import c13
     c13.rule_time_passthrough(ctx, rule="C15.1")
     c13.rule_pushed_is_popped(ctx, f"{RD}._push_scheduled", "C15.1")
+    # 'every event is eventually dispatched once due' needs the multiplexer to keep (or hand out) every event it takes from a source
+    # (shared with C12.3)
+    from . import c12
+    ctx.rule_map = {"C12.3": "C15.2"}
+    try:
+        c12.rule_mux(ctx)
+    finally:
+        ctx.rule_map = {}
     rule_not_early(ctx)
     rule_order(ctx)
     rule_idle(ctx)
